@@ -308,4 +308,279 @@ theorem parseProto_transport (p : Proto) : parseProto (lit "transport=" ++ p.str
   rw [parseQuery_transport]
   cases p <;> rfl
 
+/-! ### net.SplitHostPort on the bracketed form -/
+
+theorem index_append (sep : UInt8) (a b : Str) (ha : sep ∉ a) : index sep (a ++ sep :: b) = some a.length := by
+  unfold index
+  induction a with
+  | nil => simp [List.findIdx?_cons]
+  | cons c r ih =>
+    have hc : (c == sep) = false := by
+      have : c ≠ sep := fun e => ha (e ▸ List.mem_cons_self)
+      simpa using this
+    have := ih (fun hm => ha (List.mem_cons_of_mem _ hm))
+    simp [List.findIdx?_cons, hc, this]
+
+theorem splitHostPort_join_bracket (host ds : Str)
+    (hh : ∀ b ∈ host, b ≠ chr '[' ∧ b ≠ chr ']')
+    (hd : ∀ b ∈ ds, b ≠ chr ':' ∧ b ≠ chr '[' ∧ b ≠ chr ']') :
+    splitHostPort (chr '[' :: (host ++ chr ']' :: chr ':' :: ds)) = .ok (host, ds) := by
+  have hcolon : chr ':' ∉ ds := fun hm => (hd _ hm).1 rfl
+  have hshape : chr '[' :: (host ++ chr ']' :: chr ':' :: ds) = (chr '[' :: (host ++ [chr ']'])) ++ chr ':' :: ds := by simp
+  have hshape2 : chr '[' :: (host ++ chr ']' :: chr ':' :: ds) = (chr '[' :: host) ++ chr ']' :: (chr ':' :: ds) := by simp
+  have hidx : index (chr ']') (chr '[' :: (host ++ chr ']' :: chr ':' :: ds)) = some (host.length + 1) := by
+    rw [hshape2, index_append]
+    · simp
+    · intro hm
+      simp only [List.mem_cons] at hm
+      rcases hm with hm | hm
+      · exact absurd hm (by decide)
+      · exact (hh _ hm).2 rfl
+  have hlast : lastIndex (chr ':') (chr '[' :: (host ++ chr ']' :: chr ':' :: ds)) = some (host.length + 2) := by
+    rw [hshape, lastIndex_append _ _ _ hcolon]; simp
+  unfold splitHostPort
+  rw [hlast]
+  simp only [hidx, List.head?_cons, beq_self_eq_true, if_true]
+  have hlen : (host.length + 1 + 1 == (chr '[' :: (host ++ chr ']' :: chr ':' :: ds)).length) = false := by
+    simp
+  simp only [hlen, Bool.false_eq_true, if_false]
+  have hd1 : (chr '[' :: (host ++ chr ']' :: chr ':' :: ds)).drop 1 = host ++ chr ']' :: chr ':' :: ds := by simp
+  have hhost : ((chr '[' :: (host ++ chr ']' :: chr ':' :: ds)).drop 1).take (host.length + 1 - 1) = host := by
+    rw [hd1]; simp
+  have hc2 : ((chr '[' :: (host ++ chr ']' :: chr ':' :: ds)).drop 1).contains (chr '[') = false := by
+    rw [hd1]
+    apply contains_false_of_not_mem
+    intro hm
+    simp only [List.mem_append, List.mem_cons] at hm
+    rcases hm with hm | hm | hm | hm
+    · exact (hh _ hm).1 rfl
+    · exact absurd hm (by decide)
+    · exact absurd hm (by decide)
+    · exact (hd _ hm).2.1 rfl
+  have hd2 : (chr '[' :: (host ++ chr ']' :: chr ':' :: ds)).drop (host.length + 1 + 1) = chr ':' :: ds := by
+    rw [hshape2]; rw [List.drop_append]; simp
+  have hc3 : ((chr '[' :: (host ++ chr ']' :: chr ':' :: ds)).drop (host.length + 1 + 1)).contains (chr ']') = false := by
+    rw [hd2]
+    apply contains_false_of_not_mem
+    intro hm
+    simp only [List.mem_cons] at hm
+    rcases hm with hm | hm
+    · exact absurd hm (by decide)
+    · exact (hd _ hm).2.2 rfl
+  have hd3 : (chr '[' :: (host ++ chr ']' :: chr ':' :: ds)).drop (host.length + 2 + 1) = ds := by
+    rw [hshape]; rw [List.drop_append]; simp
+  simp only [hhost, hc2, hc3, hd3, Bool.false_eq_true, if_false]
+
+/-! ### what url.Parse leaves in the opaque part -/
+
+theorem cut_fst_spec (sep : UInt8) (s : Str) :
+    sep ∉ (cut sep s).1 ∧ (∀ b ∈ (cut sep s).1, b ∈ s) := by
+  induction s with
+  | nil => simp [cut]
+  | cons c r ih =>
+    unfold cut
+    by_cases hc : c == sep
+    · simp [hc]
+    · simp only [hc, Bool.false_eq_true, if_false]
+      have hne : c ≠ sep := by simpa using hc
+      constructor
+      · intro hm
+        simp only [List.mem_cons] at hm
+        rcases hm with hm | hm
+        · exact hne hm.symm
+        · exact ih.1 hm
+      · intro b hb
+        simp only [List.mem_cons] at hb
+        rcases hb with hb | hb
+        · exact hb ▸ List.mem_cons_self
+        · exact List.mem_cons_of_mem _ (ih.2 b hb)
+
+theorem getSchemeAux_rest (orig : Str) (i : Nat) (acc s : Str) (sch rest : Str)
+    (hs : ∀ b ∈ s, b ∈ orig) (h : getSchemeAux orig i acc s = some (sch, rest)) : ∀ b ∈ rest, b ∈ orig := by
+  induction s generalizing i acc with
+  | nil => simp [getSchemeAux] at h; rw [← h.2]; exact fun b hb => hb
+  | cons c r ih =>
+    have hr : ∀ b ∈ r, b ∈ orig := fun b hb => hs b (List.mem_cons_of_mem _ hb)
+    unfold getSchemeAux at h
+    split at h
+    · exact ih _ _ hr h
+    · split at h
+      · split at h
+        · simp at h; rw [← h.2]; exact fun b hb => hb
+        · exact ih _ _ hr h
+      · split at h
+        · split at h
+          · simp at h
+          · simp at h; rw [← h.2]; exact hr
+        · simp at h; rw [← h.2]; exact fun b hb => hb
+
+theorem getScheme_rest (u sch rest : Str) (h : getScheme u = some (sch, rest)) : ∀ b ∈ rest, b ∈ u :=
+  getSchemeAux_rest u 0 [] u sch rest (fun _ hb => hb) h
+
+theorem dropLast_no_sep (sep : UInt8) (s : Str) (hl : s.getLast? = some sep) (hc : count sep s = 1) :
+    sep ∉ s.dropLast := by
+  have hs : s = s.dropLast ++ [sep] := by
+    cases hne : s with
+    | nil => simp [hne] at hl
+    | cons c r =>
+      have hn : s ≠ [] := by rw [hne]; simp
+      have hg : s.getLast hn = sep := by
+        rw [List.getLast?_eq_some_getLast hn] at hl; exact Option.some.inj hl
+      have := List.dropLast_concat_getLast hn
+      rw [hg] at this
+      rw [← hne]; exact this.symm
+  intro hm
+  unfold count at hc
+  rw [hs, List.filter_append, List.length_append] at hc
+  have h1 : ([sep].filter (· == sep)).length = 1 := by simp
+  have h2 : 0 < (s.dropLast.filter (· == sep)).length := by
+    apply List.length_pos_of_mem (a := sep)
+    simp [List.mem_filter, hm]
+  omega
+
+theorem urlParse_opq_chars (raw scheme opq q : Str) (h : urlParse raw = .rootless scheme opq q) :
+    ∀ b ∈ opq, Plain b ∧ b ≠ chr '?' := by
+  unfold urlParse at h
+  obtain ⟨hnohash, hsub⟩ := cut_fst_spec (chr '#') raw
+  rcases hcut : cut (chr '#') raw with ⟨u, frag, fnd⟩
+  rw [hcut] at hnohash hsub h
+  simp only at hnohash hsub h
+  split at h
+  · simp at h
+  · rename_i hctl
+    split at h
+    · split at h <;> simp at h
+    · cases hg : getScheme u with
+      | none => simp [hg] at h
+      | some p =>
+        obtain ⟨sc, rest⟩ := p
+        simp only [hg] at h
+        have hrest := getScheme_rest u sc rest hg
+        have hplain : ∀ b ∈ u, Plain b := by
+          intro b hb
+          refine ⟨fun e => hnohash (e ▸ hb), ?_⟩
+          have : containsCTL u = false := by simpa using hctl
+          unfold containsCTL at this
+          rw [List.any_eq_false] at this
+          simpa using this b hb
+        by_cases hcond : (rest.getLast? == some (chr '?') && count (chr '?') rest == 1) = true
+        · simp only [hcond, if_true] at h
+          have hc' := hcond
+          simp only [Bool.and_eq_true, beq_iff_eq] at hc'
+          split at h
+          · split at h
+            · split at h
+              · simp at h
+              · simp only [UrlLite.rootless.injEq] at h
+                obtain ⟨_, ho, _⟩ := h
+                subst ho
+                intro b hb
+                have hbm : b ∈ rest := List.dropLast_subset rest hb
+                exact ⟨hplain b (hrest b hbm), fun e => dropLast_no_sep (chr '?') rest hc'.1 hc'.2 (e ▸ hb)⟩
+            · simp at h
+          · simp at h
+        · simp only [hcond, Bool.false_eq_true, if_false] at h
+          obtain ⟨hnoq, hqsub⟩ := cut_fst_spec (chr '?') rest
+          split at h
+          · split at h
+            · split at h
+              · simp at h
+              · simp only [UrlLite.rootless.injEq] at h
+                obtain ⟨_, ho, _⟩ := h
+                subst ho
+                intro b hb
+                exact ⟨hplain b (hrest b (hqsub b hb)), fun e => hnoq (e ▸ hb)⟩
+            · simp at h
+          · simp at h
+
+/-! ### what net.SplitHostPort returns as the host -/
+
+theorem index_take (sep : UInt8) (l : Str) (e : Nat) (h : index sep l = some e) : sep ∉ l.take e := by
+  unfold index at h
+  induction l generalizing e with
+  | nil => simp
+  | cons c r ih =>
+    rw [List.findIdx?_cons] at h
+    by_cases hc : c == sep
+    · simp [hc] at h; subst h; simp
+    · simp only [hc, Bool.false_eq_true, if_false] at h
+      cases hr : List.findIdx? (fun x => x == sep) r with
+      | none => simp [hr] at h
+      | some k =>
+        simp [hr] at h; subst h
+        have hne : c ≠ sep := by simpa using hc
+        intro hm
+        simp only [List.take_succ_cons, List.mem_cons] at hm
+        rcases hm with hm | hm
+        · exact hne hm.symm
+        · exact ih k hr hm
+
+theorem not_mem_of_contains_false (c : UInt8) (s : Str) (h : s.contains c = false) : c ∉ s := by
+  intro hm
+  have : s.contains c = true := by simpa using hm
+  rw [h] at this; cases this
+
+/-- the host `SplitHostPort` returns is made of bytes of its input and contains no bracket -/
+theorem splitHostPort_host (hp host p : Str) (h : splitHostPort hp = .ok (host, p)) :
+    (∀ b ∈ host, b ∈ hp) ∧ (∀ b ∈ host, b ≠ chr '[' ∧ b ≠ chr ']') := by
+  unfold splitHostPort at h
+  cases hl : lastIndex (chr ':') hp with
+  | none => simp [hl] at h
+  | some i =>
+    simp only [hl] at h
+    by_cases hb : (hp.head? == some (chr '[')) = true
+    · simp only [hb, if_true] at h
+      cases he : index (chr ']') hp with
+      | none => simp [he] at h
+      | some e =>
+        simp only [he] at h
+        split at h
+        · simp at h
+        · split at h
+          · split at h
+            · simp at h
+            · split at h
+              · simp at h
+              · rename_i hno1 hno2
+                simp only [Except.ok.injEq, Prod.mk.injEq] at h
+                obtain ⟨hh, _⟩ := h
+                have hopen : chr '[' ∉ hp.drop 1 := not_mem_of_contains_false _ _ (by simpa using hno1)
+                have hsub1 : ∀ b ∈ host, b ∈ hp.drop 1 := by
+                  intro b hbm; rw [← hh] at hbm; exact List.mem_of_mem_take hbm
+                have hclose : chr ']' ∉ hp.take e := index_take _ _ _ he
+                have hsub2 : ∀ b ∈ host, b ∈ hp.take e := by
+                  intro b hbm
+                  rw [← hh] at hbm
+                  cases hp with
+                  | nil => simp at hbm
+                  | cons c r =>
+                    cases e with
+                    | zero => simp at hbm
+                    | succ k =>
+                      simp only [List.drop_succ_cons, List.drop_zero, Nat.add_sub_cancel] at hbm
+                      simp only [List.take_succ_cons, List.mem_cons]
+                      exact Or.inr hbm
+                exact ⟨fun b hbm => List.mem_of_mem_drop (hsub1 b hbm),
+                  fun b hbm => ⟨fun e' => hopen (e' ▸ hsub1 b hbm), fun e' => hclose (e' ▸ hsub2 b hbm)⟩⟩
+          · split at h <;> simp at h
+    · simp only [hb, Bool.false_eq_true, if_false] at h
+      split at h
+      · simp at h
+      · split at h
+        · simp at h
+        · split at h
+          · simp at h
+          · rename_i hno1 hno2
+            simp only [Except.ok.injEq, Prod.mk.injEq] at h
+            obtain ⟨hh, _⟩ := h
+            have hopen : chr '[' ∉ hp := by
+              have := not_mem_of_contains_false (chr '[') (hp.drop 0) (by simpa using hno1)
+              simpa using this
+            have hclose : chr ']' ∉ hp := by
+              have := not_mem_of_contains_false (chr ']') (hp.drop 0) (by simpa using hno2)
+              simpa using this
+            have hsub : ∀ b ∈ host, b ∈ hp := by
+              intro b hbm; rw [← hh] at hbm; exact List.mem_of_mem_take hbm
+            exact ⟨hsub, fun b hbm => ⟨fun e' => hopen (e' ▸ hsub b hbm), fun e' => hclose (e' ▸ hsub b hbm)⟩⟩
+
 end Stun.C17
